@@ -371,9 +371,12 @@ func (m *SrvMonitor) Step(trx int64, frame []byte, obs Obs, op string) {
 				}
 			}
 			// ---- C01
-			if rp.Type == 5 && consistent {
+			if rp.Type == 5 {
 				for _, g := range m.holder(a, rp.At) {
-					if g.id != id && !m.bad[g.id] {
+					// two clients by the gloss — and certainly two holders for the server — when both the identity and the
+					// hardware address differ (a hardware-address identity is injective, a client identifier in the
+					// internal namespace is never keyed on); with one hardware address the consistency hypothesis decides
+					if g.id != id && ((consistent && !m.bad[g.id]) || g.chadr != macs) {
 						kind := "pending offer"
 						if g.ack {
 							kind = "acknowledged lease"
